@@ -59,6 +59,24 @@ MUTANTS = [
     # neutral
     {"id": "c01-n-reorder-resets", "expect": "silent", "edits": [(L, "        self.values = []\n        self.cur_token_pos = self.start_token_pos\n        self.cur_prod_id += 1", "        self.cur_prod_id += 1\n        self.cur_token_pos = self.start_token_pos\n        self.values = []")]},
     {"id": "c01-n-values-copy", "expect": "silent", "edits": [(L, "        clone.values = self.values[:]", "        clone.values = list(self.values)")]},
+    {"id": "c01-prefix-of-last-pair", "expect": "fire", "edits": [(L, """        max_len = min(len(r.production) for r in prods_chunk)
+        common_prefix = list(prods_chunk[0].production[:max_len])
+        for prod_rule in prods_chunk[1:]:
+            for i, (s1, s2) in enumerate(zip(common_prefix, prod_rule.production)):
+                if s1 != s2:
+                    common_prefix = common_prefix[:i]
+                    break
+""", """        common_prefix = prods_chunk[0].production
+        for prev_rule, prod_rule in zip(prods_chunk, prods_chunk[1:]):
+            common_len = 0
+            for s1, s2 in zip(prev_rule.production, prod_rule.production):
+                if s1 != s2:
+                    break
+                common_len += 1
+            common_prefix = prod_rule.production[:common_len]
+        common_prefix = list(common_prefix)
+""")]},
+    {"id": "c01-n-prefix-loop-whole-chunk", "expect": "silent", "edits": [(L, "        for prod_rule in prods_chunk[1:]:\n            for i, (s1, s2) in enumerate(zip(common_prefix, prod_rule.production)):", "        for prod_rule in prods_chunk:\n            for i, (s1, s2) in enumerate(zip(common_prefix, prod_rule.production)):")]},
 ]
 
 # ---- the splice decided by a flag carried on ProdRule instead of a look-up in the suffix set (refactoring of seeds s15/s33)
